@@ -24,6 +24,7 @@ inductive GoTy where
   | map (v : GoTy)                      -- map[string]v
   | strct (fs : List (FTag × GoTy))
   | time                                -- time.Time
+  | text                                -- a named type with MarshalText (encoding.TextMarshaler): written as a JSON string
   | bytes                               -- []byte
   | iface                               -- interface{}
   deriving Repr
@@ -36,6 +37,7 @@ inductive GoVal where
   | map (kvs : List (String × GoVal))
   | strct (vs : List GoVal)             -- field values, in declaration order
   | time (text : String)
+  | text (s : String)                   -- the text MarshalText returns
   | bytes (b64 : String)
   | any (j : J)                         -- dynamic content of an interface{}
   deriving Repr
@@ -66,6 +68,7 @@ def schemaOf (strAll : Bool) : Nat → GoTy → Schema
       props := fs.map (fun ft => (ft.1.json,
         if ft.1.asString && (strAll || stringable ft.2) then ({ ty := "string" } : Schema) else schemaOf strAll n ft.2)) }
   | _+1, .time => { ty := "string" }
+  | _+1, .text => { ty := "string" }
   | _+1, .bytes => { ty := "string" }     -- format byte (base64)
   | _+1, .iface => {}
 
@@ -106,6 +109,7 @@ def encode : Nat → GoTy → GoVal → Option J
       else (encode n fv.1.2 fv.2).map (fun j => some (fv.1.1.json, if fv.1.1.asString && stringable fv.1.2 then quoteJ j else j)))).map
       (fun l => J.obj (l.filterMap id))
   | _+1, .time, .time s => some (.str s)
+  | _+1, .text, .text s => some (.str s)
   | _+1, .bytes, .bytes s => some (.str s)
   | _+1, .bytes, .nil => some .null
   | _+1, .iface, .any j => some j
